@@ -151,6 +151,55 @@ let cpatch_line line =
       | PErrChecksum -> "ERR_CHECKSUM" | PPanic -> "PANIC")
   | _ -> ()
 
+(* ---------------- Hub (C03 C10) ---------------- *)
+let kv_of s = match String.index_opt s '=' with
+  | Some i -> (String.sub s 0 i, String.sub s (i + 1) (String.length s - i - 1)) | None -> (s, "")
+let split_on c s = if s = "" then [] else String.split_on_char c s
+let exp_of s = if s = "n" then None else Some (zl_of_hex (String.sub s 1 (String.length s - 1)))
+let req_of s : hreq =
+  match String.split_on_char ':' s with
+  | ["P"; p; e; d; l; ch] ->
+    Put (zl_of_hex p, exp_of e, zl_of_hex d, z_of_dec l, (if ch = "." then [] else List.map zl_of_hex (String.split_on_char '+' ch)))
+  | ["D"; p; e] -> Del (zl_of_hex p, exp_of e)
+  | ["G"; p] -> Get (zl_of_hex p)
+  | _ -> failwith ("bad req " ^ s)
+let tree_str l =
+  let l = List.sort compare (List.map (fun (p, c) -> (hex_of_zl p, hex_of_zl c)) l) in
+  if l = [] then "-" else String.concat "," (List.map (fun (p, c) -> p ^ "=" ^ c) l)
+let hreply_str (rp : hreply) = match rp with
+  | PutRes (c, cur) -> Printf.sprintf "PutResult:%b:%s" c (match cur with Some d -> "h" ^ hex_of_zl d | None -> "none")
+  | DelRes (c, cur) -> Printf.sprintf "DeleteResult:%b:%s" c (match cur with Some d -> "h" ^ hex_of_zl d | None -> "none")
+  | GetRes (Some c) -> Printf.sprintf "Content:%d:h%s:HASHOK:%s" (List.length c) (hex_of_zl c) (hex_of_zl c)
+  | GetRes None -> "Error:not_found"
+  | ErrRes -> "Error:mismatch"
+
+let chub_line line =
+  match split_ws line with
+  | id :: fields ->
+    let tbl = ref [] and init = ref [] and progs = ref [] and sched = ref [] in
+    List.iter (fun f ->
+      let (k, v) = kv_of f in
+      if k = "T" then tbl := List.map (fun e -> match String.split_on_char ':' e with
+          | [c; h] -> (zl_of_hex c, List.map (fun ch -> z_of_int (Char.code ch)) (List.init (String.length h) (String.get h)))
+          | _ -> failwith "bad T") (split_on ';' v)
+      else if k = "I" then init := (if v = "-" then [] else List.map (fun e -> match String.split_on_char ':' e with
+          | [p; c] -> (zl_of_hex p, zl_of_hex c) | _ -> failwith "bad I") (split_on ';' v))
+      else if k = "S" then sched := (if v = "-" then [] else List.map (fun e ->
+          let n = nat_of_int (int_of_string (String.sub e 1 (String.length e - 1))) in
+          if e.[0] = 'k' then Kill n else Step n) (split_on ',' v))
+      else if String.length k > 0 && k.[0] = 'P' then
+        progs := !progs @ [ (if v = "-" then [] else List.map req_of (split_on ',' v)) ]) fields;
+    let ((sents, final), snaps) = hub_exec !tbl !init !progs !sched in
+    let b = Buffer.create 256 in
+    Buffer.add_string b (id ^ " ");
+    List.iteri (fun i se ->
+      let rs = List.map (fun (((_, rp), _), _) -> hreply_str rp) se in
+      Buffer.add_string b (Printf.sprintf "R%d=%s " i (if rs = [] then "-" else String.concat "," rs))) sents;
+    Buffer.add_string b ("F=" ^ tree_str final);
+    Buffer.add_string b (" N=" ^ (if snaps = [] then "-" else String.concat ";" (List.map tree_str snaps)));
+    print_endline (Buffer.contents b)
+  | _ -> ()
+
 let () =
   match Array.to_list Sys.argv with
   | _ :: "c17" :: file :: _ -> iter_lines file (c17_line false)
@@ -159,4 +208,5 @@ let () =
   | _ :: "cdelta" :: file :: _ -> iter_lines file cdelta_line
   | _ :: "cgreedy" :: file :: _ -> iter_lines file cgreedy_line
   | _ :: "cpatch" :: file :: _ -> iter_lines file cpatch_line
+  | _ :: "chub" :: file :: _ -> iter_lines file chub_line
   | _ -> prerr_endline "usage: driver <kind> <cases file>"; exit 2
